@@ -192,36 +192,45 @@ def distinctKeys : List (List Nat) → List (List Nat)
 def setAt? {α : Type} (xs : List α) (i : Nat) (v : α) : Option (List α) :=
   if i < xs.length then some (xs.set i v) else none
 
+/-- a loop that assigns `out[idx] = val` for every element, where computing `(idx, val)` may panic
+(`step a = none`) and so may the assignment (index out of bounds) -/
+def setMany {α β : Type} (step : α → Option (Nat × β)) : List α → List β → Option (List β)
+  | [], out => some out
+  | a :: as, out =>
+    match step a with
+    | none => none
+    | some (i, v) =>
+      match setAt? out i v with
+      | none => none
+      | some out' => setMany step as out'
+
+/-- `mapM` for `Option` -/
+def mapOpt {α β : Type} (f : α → Option β) : List α → Option (List β)
+  | [] => some []
+  | a :: as =>
+    match f a, mapOpt f as with
+    | some b, some bs => some (b :: bs)
+    | _, _ => none
+
 /-- the inner loop of `ClassPairPosSubtable::build`:
 `for (class, (v1, v2)) in stuff { let idx = class2map.get(&class).unwrap(); records[*idx] = … }` -/
-def buildRow {V : Type} (map2 : List (List Nat × Nat)) :
-    List (List Nat × V) → List (Option V) → Option (List (Option V))
-  | [], row => some row
-  | (c2, v) :: rest, row =>
-    match mappingGet map2 c2 with
-    | none => none
-    | some idx =>
-      match setAt? row idx (some v) with
-      | none => none
-      | some row' => buildRow map2 rest row'
+def buildRow {V : Type} (map2 : List (List Nat × Nat)) (stuff : List (List Nat × V))
+    (row : List (Option V)) : Option (List (Option V)) :=
+  setMany (fun e => (mappingGet map2 e.1).map (fun idx => (idx, some e.2))) stuff row
 
-/-- the outer loop: `for (cls1, stuff) in self.items { let idx = class1map.get(&cls1).unwrap(); …;
-out[*idx] = Class1Record::new(records) }` -/
+/-- the `BTreeMap<GlyphSet, _>` stored under class 1 `k` -/
+def stuffOf {V : Type} (items : List ((List Nat × List Nat) × V)) (k : List Nat) : List (List Nat × V) :=
+  (items.filter (fun e => e.1.1 == k)).map (fun e => (e.1.2, e.2))
+
+/-- the outer loop: `for (cls1, stuff) in self.items { let idx = class1map.get(&cls1).unwrap();
+let mut records = vec![empty_record; class2map.len() + 1]; …; out[*idx] = Class1Record::new(records) }` -/
 def buildRows {V : Type} (items : List ((List Nat × List Nat) × V))
-    (map1 map2 : List (List Nat × Nat)) :
-    List (List Nat) → List (List (Option V)) → Option (List (List (Option V)))
-  | [], out => some out
-  | k :: ks, out =>
-    match mappingGet map1 k with
-    | none => none
-    | some idx =>
-      match buildRow map2 ((items.filter (fun e => e.1.1 == k)).map (fun e => (e.1.2, e.2)))
-          (List.replicate (map2.length + 1) none) with
-      | none => none
-      | some row =>
-        match setAt? out idx row with
-        | none => none
-        | some out' => buildRows items map1 map2 ks out'
+    (map1 map2 : List (List Nat × Nat)) (keys : List (List Nat)) (out : List (List (Option V))) :
+    Option (List (List (Option V))) :=
+  setMany (fun k =>
+    match mappingGet map1 k, buildRow map2 (stuffOf items k) (List.replicate (map2.length + 1) none) with
+    | some idx, some row => some (idx, row)
+    | _, _ => none) keys out
 
 /-- `ClassPairPosSubtable::compute_value_formats`: the union (bitwise or) of the value formats of
 all cells, separately for the two records -/
@@ -252,7 +261,7 @@ def ClassPairSub.build {V : Type} (fmt : V → Nat × Nat) (s : ClassPairSub V) 
 /-- `ClassPairPosBuilder::build`: one subtable per `ClassPairPosSubtable`, in order -/
 def buildClassPairs {V : Type} (fmt : V → Nat × Nat) (b : List (ClassPairSub V)) :
     Option (List (ClassPairOut V)) :=
-  b.mapM (ClassPairSub.build fmt)
+  mapOpt (ClassPairSub.build fmt) b
 
 /-- `PairPosBuilder::build`: `let mut out = self.pairs.build(); out.extend(self.classes.build())`
 — glyph-pair subtables first, then class subtables.  Results are `Option V`-valued: a glyph-pair
@@ -376,17 +385,13 @@ def MarkToBase.ofOps {A : Type} : List (MbOp A) → MarkToBase A → Option (Mar
 
 /-- the `BaseRecord` of one base glyph: `let mut anchor_offsets = vec![None; n_classes]; for (class,
 anchor) in anchors { anchor_offsets[class as usize] = Some(anchor) }` (later entries overwrite) -/
-def baseRecord {A : Type} : List (Nat × A) → List (Option A) → Option (List (Option A))
-  | [], row => some row
-  | (c, a) :: rest, row =>
-    match setAt? row c (some a) with
-    | none => none
-    | some row' => baseRecord rest row'
+def baseRecord {A : Type} (anchors : List (Nat × A)) (row : List (Option A)) : Option (List (Option A)) :=
+  setMany (fun e => some (e.1, some e.2)) anchors row
 
 /-- `MarkToBaseBuilder::build` (`MarkList::build` for the mark coverage / mark array) -/
 def MarkToBase.build {A : Type} (b : MarkToBase A) : Option (MarkBase A) :=
   let n := b.marks.classes.length
-  match b.bases.mapM (fun e => baseRecord e.2 (List.replicate n none)) with
+  match mapOpt (fun e => baseRecord e.2 (List.replicate n none)) b.bases with
   | none => none
   | some rows =>
     some ⟨buildCoverage (b.marks.glyphs.map (·.1)), buildCoverage (b.bases.map (·.1)), n,
